@@ -554,7 +554,7 @@ func (s *Sim) BuildForge(f *Forge) *specqbft.SignedMessage {
 				}
 			}
 			if hp != nil {
-				pj = s.poolMsgs(specqbft.PrepareMsgType, hp.Message.DataRound, func(m *specqbft.SignedMessage) bool { return m.Message.Root == hp.Message.Root })
+				pj = s.poolMsgsH(specqbft.PrepareMsgType, hp.Message.DataRound, f.Just == "replay", func(m *specqbft.SignedMessage) bool { return m.Message.Root == hp.Message.Root })
 				for k, v := range Values {
 					if Root(v) == hp.Message.Root && f.Value == "auto" {
 						def = Values[k]
@@ -591,6 +591,23 @@ func (s *Sim) BuildForge(f *Forge) *specqbft.SignedMessage {
 					if len(ps) >= s.Quorum {
 						msg.DataRound, msg.Root, fullData = pr, r, Values[k]
 						msg.RoundChangeJustification, _ = specqbft.MarshalJustifications(ps)
+						found = true
+						break
+					}
+				}
+				if found {
+					break
+				}
+			}
+		case "replay": // claims a prepared value backed by prepares of ANOTHER height (same round number and value)
+			for pr := round - 1; pr >= 1; pr-- {
+				found := false
+				for _, k := range []string{"A", "B", "C"} {
+					r := Root(Values[k])
+					ps := s.poolMsgsH(specqbft.PrepareMsgType, pr, true, func(m *specqbft.SignedMessage) bool { return m.Message.Root == r })
+					if len(ps) >= s.Quorum {
+						msg.DataRound, msg.Root, fullData = pr, r, Values[k]
+						msg.RoundChangeJustification, _ = specqbft.MarshalJustifications(ps[:s.Quorum])
 						found = true
 						break
 					}
